@@ -109,8 +109,51 @@ fn main() {
     let per: Mutex<BTreeMap<String, PerBuilder>> = Mutex::new(BTreeMap::new());
     let notes: Mutex<BTreeMap<String, u64>> = Mutex::new(BTreeMap::new());
     let done = std::sync::atomic::AtomicU64::new(0);
+    // watchdog: a training call that never returns (a guard let a pathological value through) must
+    // not hang the driver: report the grid point and stop with a machinery error (never a verdict)
+    let in_flight: std::sync::Arc<Mutex<BTreeMap<u64, (std::time::Instant, String)>>> = std::sync::Arc::new(Mutex::new(BTreeMap::new()));
+    let ticket = std::sync::atomic::AtomicU64::new(0);
+    {
+        let reg = in_flight.clone();
+        std::thread::spawn(move || loop {
+            std::thread::sleep(std::time::Duration::from_secs(2));
+            let g = reg.lock().unwrap();
+            for (_, (t0, what)) in g.iter() {
+                if t0.elapsed().as_secs() > 120 {
+                    println!("MACHINERY-ERROR grid point did not finish within 120 s (non-terminating training call): {}", what);
+                    std::process::exit(2);
+                }
+            }
+        });
+    }
+    if let Ok(only) = std::env::var("C04_ONLY") {
+        // development aid (never set by ./check): restrict the sweep to one builder
+        cases.retain(|c| c.builder == only);
+    }
+    if std::env::var("C04_PROBE").is_ok() {
+        // development aid: run every grid point in its own thread with a 5 s limit and list the ones that hang
+        for c in &cases {
+            let (tx, rx) = std::sync::mpsc::channel();
+            let c2 = c.clone();
+            std::thread::spawn(move || {
+                let sp = crate::specs();
+                let t0 = std::time::Instant::now();
+                let _ = run_case(&c2, &sp);
+                let _ = tx.send(t0.elapsed().as_secs_f64());
+            });
+            match rx.recv_timeout(std::time::Duration::from_secs(5)) {
+                Ok(t) if t > 0.5 => println!("SLOW {:.1}s {}", t, c.vals.iter().map(|p| format!("{}={}", p.name, p.class)).collect::<Vec<_>>().join(" ")),
+                Ok(_) => {}
+                Err(_) => println!("HANG {} {}", c.float, c.vals.iter().map(|p| format!("{}={}", p.name, p.class)).collect::<Vec<_>>().join(" ")),
+            }
+        }
+        std::process::exit(0);
+    }
     par_sweep(&ctx, "hyperparameter grids", &cases, |c| {
+        let tk = ticket.fetch_add(1, std::sync::atomic::Ordering::Relaxed);
+        in_flight.lock().unwrap().insert(tk, (std::time::Instant::now(), serde_json::to_string(c).unwrap()));
         let o = run_case(c, &specs);
+        in_flight.lock().unwrap().remove(&tk);
         ctx.eval(o.expected.is_some());
         if o.expected.is_none() {
             ctx.indeterminate();
